@@ -6,6 +6,10 @@ CONSTANTS
   AB_ViewRestart = TRUE
   AB_AxisLenConst = FALSE
   AB_GetAxisOffByOne = FALSE
+  NthArgs = {0, 1, 2, 9}
+  NthBudget = 1
+  NthMaxCells = 9
+  AB_NthUnclamped = FALSE
   AB_View0Dim = FALSE
   ShapeSet <- MCShapeSet
 INVARIANTS
